@@ -274,7 +274,7 @@ def _choi_of_formula(fn, d):
 
 
 def _param(rng, r):
-    grid = [0.0, 1.0, 0.5, 1e-6, 1 - 1e-6, 0.25]
+    grid = [0.0, 1.0, 0.5, 1e-6, 1 - 1e-6, 0.25, 0, 1]  # the end points also as Python ints (depolarizing(2, 1) is an ordinary call)
     return grid[r] if r < len(grid) else float(rng.random())
 
 
@@ -537,7 +537,12 @@ def _b_choi(ctx, spec, rng):
         a, b, c = 1, 1, 0
         j = ctx.call(choi)
     else:
-        a, b, c = (int(v) for v in rng.integers(0, 4, size=3)) if spec[2] % 2 else (float(v) for v in rng.random(3) * 3)
+        # every parameter independently a Python int, a Python float or a NumPy float (an integer first parameter with fractional
+        # others is an ordinary call: choi(1, 0.5, 0.5)); spec[2] % 4 == 1 keeps the all-integer class, == 3 the all-float class
+        kinds = {1: "iii", 3: "fff"}.get(spec[2] % 4) or "".join(rng.choice(list("ifn"), size=3))
+        if spec[2] % 4 == 2:
+            kinds = "i" + "".join(rng.choice(list("fn"), size=2))
+        a, b, c = ({"i": int(rng.integers(0, 4)), "f": float(rng.random() * 3), "n": np.float64(rng.integers(1, 12) / 4)}[k_] for k_ in kinds)
         j = ctx.call(choi, a, b, c)
     if j is FAILED:
         return
